@@ -123,4 +123,21 @@ PROPS = {
             fuzz("c01", "FuzzRoundTrip", secs=150),
         ],
     },
+    "C07": {
+        "level": "exploration",
+        "rule": "rapid state machine on the public MailboxTracker/SessionTracker API: QueueNumMessages(+k, k from {1,1,1,2,3,10}), "
+                "QueueExpunge, QueueMessageFlags (with/without source and UID), QueueMailboxFlags, NewSession, Close, Poll(allowExpunge "
+                "true/false) on 1..4 sessions, mailbox size 0..40. Polls run through a real server connection whose stub session "
+                "delegates Poll to the tracker (NOOP = expunges allowed, non-UID FETCH = withheld); emitted updates are read off the wire "
+                "with kit/tok and applied to a reference model of each client's view (lists of unique ids). After every step and for "
+                "every session and number: DecodeSeqNum/EncodeSeqNum equal the model's positions, are mutually inverse when non-zero, 0 "
+                "iff absent on the other side. Non-trivial: a session has >=1 pending expunge and >=1 pending append when queried; "
+                "distinct by hash of the full history.",
+        "assumptions": ["client sequence numbers beyond the client's own view are only judged when nothing is pending for that session",
+                        "merging of consecutive EXISTS updates would be tolerated (the code's own TODO); other reorderings are violations"],
+        "units": [
+            plain("c07", "TestReplayRegressions"),
+            rapid("c07", "TestPropTracker", quick=(1500, 4), thorough=(30000, 12), steps=40),
+        ],
+    },
 }
